@@ -23,7 +23,7 @@ def load(repo_root='/repo', spec_dir=None):
 def list_units(specs):
     units = []
     for f in specs.funcs.values():
-        if f.recursive:
+        if getattr(f, 'self_recursive', f.recursive):
             units.append(('spec', f.name, None, None))
     for l in specs.lemmas.values():
         units.append(('lemma', l.name, None, None))
